@@ -77,6 +77,30 @@ def membership(e, token_param):
     return None
 
 
+def owner_cond(e) -> bool:
+    """cond event `<x>.requesting_process == <env>.active_process` decided True (either operand order)"""
+    n = e.d.get('node')
+    if e.kind != 'cond' or e.d.get('synthetic') or n is None or e.polarity is not True:
+        return False
+    if isinstance(n, ast.Compare) and len(n.ops) == 1 and isinstance(n.ops[0], (ast.Eq, ast.Is)):
+        for a, b in ((n.left, n.comparators[0]), (n.comparators[0], n.left)):
+            if isinstance(a, ast.Attribute) and a.attr == 'requesting_process' and isinstance(b, ast.Attribute) and b.attr == 'active_process':
+                return True
+    return False
+
+
+def member_any(e):
+    """(list, polarity) for `<name> in self.L` whatever the name (inside inlined frames the token has the callee's parameter name)"""
+    n = e.d.get('node')
+    if e.kind != 'cond' or e.d.get('synthetic') or n is None:
+        return None
+    if isinstance(n, ast.Compare) and len(n.ops) == 1 and isinstance(n.ops[0], (ast.In, ast.NotIn)) and isinstance(n.left, ast.Name):
+        L = self_attr(n.comparators[0])
+        if L:
+            return L, (e.polarity if isinstance(n.ops[0], ast.In) else not e.polarity)
+    return None
+
+
 def run(p: Project, tier: str) -> Result:
     r = Result(PROP)
     r.explanation = ('validate(token ∧ process) dominates every mutation; failure ⇒ RuntimeError with no prior effect; '
@@ -113,6 +137,7 @@ def check_entry(r: Result, s, entry, fi, tok, granted, queue, ps):
         removed_from = set()
         lookups = []
         member = {}
+        alt = {}
         for e in pa.events:
             if e.fi is not None:
                 r.analysed_functions.add(e.fi.key)
@@ -132,9 +157,26 @@ def check_entry(r: Result, s, entry, fi, tok, granted, queue, ps):
             m = membership(e, tok)
             if m is not None:
                 member[m[0]] = m[1]
-                if m[1] and m[0] in (granted, queue):
+                if m[1] and m[0] in (granted, queue) and queue is not None:
                     validated = m[0]
+                if queue is None and m[1] and m[0] == granted:
+                    alt['member'] = True
+                    if alt.get('owner'):
+                        validated = granted
                 continue
+            # alternative validation idiom for put/get: `tok in self.<granted>` and `tok.requesting_process == active_process`, both true
+            if queue is None:
+                ma = member_any(e)
+                if ma is not None and ma[0] == granted and ma[1]:
+                    alt['member'] = True
+                    if alt.get('owner'):
+                        validated = granted
+                    continue
+                if owner_cond(e):
+                    alt['owner'] = True
+                    if alt.get('member'):
+                        validated = granted
+                    continue
             if e.kind == 'op' and e.op in ('remove', 'pop'):
                 v = e.val
                 if v == ('param', tok) or (v is not None and v[0] == 'found' and v[3] == ('param', tok)):
